@@ -14,7 +14,7 @@ Init == MInit(LoaderSet, FlagSet, CauseSet, LenSet) /\ ops = <<>>
          /\ (loader = "encase" => (cause = "valid" /\ prior = "absent"))
 Lab(a, name) == a /\ ops' = Append(ops, name)
 Next ==
-  \/ (Store \/ PreCheck \/ Encase \/ Stat \/ Alloc \/ Advise \/ ReadFill \/ Wrap \/ Deser \/ Return) /\ UNCHANGED ops
+  \/ (Store \/ PreCheck \/ Encase \/ Stat \/ Alloc \/ Advise \/ ReadFill \/ ReadFail \/ DropLocal \/ Wrap \/ Deser \/ Return) /\ UNCHANGED ops
   \/ Lab(Move, "move") \/ Lab(BoxIt, "box") \/ Lab(Unbox, "unbox") \/ Lab(SendTo, "send") \/ Lab(SendBack, "back")
   \/ Lab(ShareArc, "arc") \/ Lab(Unshare, "unarc")
   \/ (ReaderEnter \/ ReaderLeave) /\ UNCHANGED ops
